@@ -30,7 +30,7 @@ EXHAUSTIVE_SUBDOMAINS = []
 ASSUMPTIONS = ["positions are judged only for the simulated (cleanly encoded) aircraft; noise addresses are judged for robustness, "
                "listing and the Comm-B rule only", "between 59 s and 61 s of silence neither presence nor absence is judged",
                "longitude compared modulo 360; error measured as great-circle angle"]
-REQUIRED = ["calls", "same_squitter_string_repeated", "batch_processed_at_tnow_exactly_zero", "transitions", "branch_ref", "branch_global", "branch_none", "evicted", "reappeared", "commb_attached", "commb_unknown_ignored",
+REQUIRED = ["calls", "same_squitter_string_repeated", "idle_call_with_no_messages", "batch_processed_at_tnow_exactly_zero", "transitions", "branch_ref", "branch_global", "branch_none", "evicted", "reappeared", "commb_attached", "commb_unknown_ignored",
             "surface_update", "airborne_update", "case_compare", "run_loop", "gap_lt10", "gap_10_180", "gap_gt180", "cross_antimeridian",
             "cross_equator", "cross_nl", "second_tracker_alive"]
 
@@ -325,6 +325,12 @@ def _play(ctx, hist, d, lower, judge):
                 while zb + 1 < len(batch) and batch[zb + 1][0] == 0:
                     zb += 1
                 batch = batch[:zb + 1]       # this batch ends with the stamp 0 and is processed at tnow == 0
+        idle_gap = (batch[0][0] - prev_tnow) if (batch and prev_tnow > -1e17) else 0.0
+        if idle_gap > 2.0 and not hist.get("clock_through_zero") and brng.random() < 0.3:
+            # an idle tick: the feeder calls with NOTHING received in this period - the clock still advances and whoever has been
+            # silent for more than 61 s by now is gone after this call too
+            batch = []
+            ctx.hit("idle_call_with_no_messages") if judge else None
         k += len(batch)
         at, am, ct, cm = [], [], [], []
         for (t, kind, m, addr, tr) in batch:
@@ -337,7 +343,10 @@ def _play(ctx, hist, d, lower, judge):
                 cm.append(mm)
             if tr and tr[0] == "pos":
                 truth[(addr, t)] = tr
-        tnow = max(prev_tnow, batch[-1][0] + brng.choice((0.0, 0.01, 0.5)))   # the clock never runs backwards
+        if not batch:
+            tnow = prev_tnow + brng.uniform(0.5, idle_gap - 0.5)
+        else:
+            tnow = max(prev_tnow, batch[-1][0] + brng.choice((0.0, 0.01, 0.5)))   # the clock never runs backwards
         if zb is not None and prev_tnow <= 0:
             tnow = brng.choice((0, 0.0))
             ctx.hit("batch_processed_at_tnow_exactly_zero")
